@@ -537,6 +537,43 @@ def run_cli_many(jobs, release=False, timeout=60):
         return list(ex.map(one, jobs))
 
 
+def run_cli_trickle(jobs, delay=0.25, release=False, timeout=60):
+    """jobs: list of (argv, [chunk, chunk, ...]): stdin is a pipe written chunk by chunk with a pause after each chunk, so
+    that the first read() of the child returns only the first chunk. Returns list of (rc, stdout, stderr)."""
+    import threading
+    import time as _t
+    from concurrent.futures import ThreadPoolExecutor
+    binary = sfs_path(release)
+
+    def one(job):
+        argv, chunks = job
+        p = subprocess.Popen([binary] + list(argv), stdin=subprocess.PIPE, stdout=subprocess.PIPE, stderr=subprocess.PIPE, env=ENV)
+        out = {}
+        t1 = threading.Thread(target=lambda: out.__setitem__("o", p.stdout.read()))
+        t2 = threading.Thread(target=lambda: out.__setitem__("e", p.stderr.read()))
+        t1.start(); t2.start()
+        try:
+            for k, c in enumerate(chunks):
+                if c:
+                    p.stdin.write(c); p.stdin.flush()
+                if k + 1 < len(chunks):
+                    _t.sleep(delay)
+        except (BrokenPipeError, OSError):
+            pass
+        try:
+            p.stdin.close()
+        except (BrokenPipeError, OSError):
+            pass
+        try:
+            rc = p.wait(timeout=timeout)
+        except subprocess.TimeoutExpired:
+            p.kill(); rc = -999
+        t1.join(); t2.join()
+        return (rc, out.get("o", b""), out.get("e", b""))
+    with ThreadPoolExecutor(max_workers=NPROC) as ex:
+        return list(ex.map(one, jobs))
+
+
 def is_panic(rc, stderr):
     return rc == 101 or rc < 0 or b"panicked at" in stderr
 
